@@ -124,8 +124,11 @@ def check(case, mode):
     try:
         _check_one(red, den.in_S, den.out_S, 'reduced', p)
     except Violation as v:
+        # (the same wrong leaf dtype also surfaces as a failing transposition downstream of the reduced product:
+        # "cotangent type does not match function output")
         if 'TransposeIndexRule' in fired and _mixed_anywhere(case['expr'], defs) and (
-                'mv-structure' in v.key or 'traced-structure' in v.key):
+                'mv-structure' in v.key or 'traced-structure' in v.key
+                or ('raises:TypeError' in v.key and 'cotangent type does not match' in v.detail)):
             raise Violation('reduce/TransposeIndexRule/mixed-leaf-dtypes', v.detail)
         raise
     classes = []
